@@ -93,9 +93,14 @@ class FileAdapter(ExternalStateAdapter):
             }
         }
 
-        f = open(os.path.join(self.path, str(state.instance_id) + ".json"), "w")
-        f.write(jsonpickle.dumps(data))
-        f.close()
+        # write a temporary file and rename it onto the state file: if the process dies during the write,
+        # the previous state of the instance is still there (os.replace is atomic)
+        path = os.path.join(self.path, str(state.instance_id) + ".json")
+        with open(path + ".tmp", "w") as f:
+            f.write(jsonpickle.dumps(data))
+            f.flush()
+            os.fsync(f.fileno())
+        os.replace(path + ".tmp", path)
 
 
     def _load_state(self) -> list[InstanceState]:
@@ -103,7 +108,8 @@ class FileAdapter(ExternalStateAdapter):
         instance_paths = os.listdir(self.path)
 
         for instance_uuid in instance_paths:
-            instances.append(self._load_instance(instance_uuid.split(".")[0]))
+            if instance_uuid.endswith(".json"): # not the temporary file of an interrupted write
+                instances.append(self._load_instance(instance_uuid.split(".")[0]))
 
         return instances
 
